@@ -489,4 +489,44 @@ example : addStatus ((UC.addServer [] 2 W.A).run W.stored 5).2 = 202 ∧
     addStatus ((UC.addServer [] 2 W.A).run ((UC.addServer [] 2 W.A).run W.stored 5).1 6).2 = 202 ∧
     ((UC.addServer [] 2 W.A).run ((UC.addServer [] 2 W.A).run W.stored 5).1 6).1.queue.length = 1 := by decide
 
+/-! ## the probe of the `discover` effect (`Rest.discoveryProbe`) is the one the program queues -/
+
+/-- a use-case probe as the `Rest` model's probe fields (`Goal.toNat`: details 0, port 1) -/
+def probeFieldsOf (p : Probe) : Rest.ProbeFields := ⟨addrOf p.addr, p.port, p.goal.toNat, p.retries, p.maxRetries⟩
+
+/-- the item `EffectIs` names carries `Rest.discoveryProbe` of the submitted address: game port, goal `port`,
+no retries, the configured maximum -/
+theorem discoveryItem_probe (m : Int) (a : Addr) (s : AbsState) (now : Int) :
+    probeFieldsOf (discoveryItem m a s now).probe = Rest.discoveryProbe (addrOf a) m := rfl
+
+/-- **`Rest.discoveryProbe` is the probe `UC.addServer` enqueues** (C17: what the driver prints for a `discover`
+effect, `Drv/C17.lean: renderEffect`, is what the use-case program queues).  Under the hypotheses of
+`addExecute_abstracts`: whenever the table function's effect is `discover created ra qp w`, the program's run appended
+exactly one item to the probe queue and that item's probe is `Rest.discoveryProbe ra m` — i.e.
+`Rest.Effect.probe m` of that effect; when the effect is `none` the queue is untouched. -/
+theorem addExecute_probe (view : Server → Rest.Stored) (z : Fields) (m : Int) (a : Addr) (s : AbsState) (now : Int)
+    (hport : 0 ≤ a.port ∧ a.port ≤ 65535)
+    (hcanon : ∀ row, s.getRow a = some row → row.svr.addr = a) :
+    match (Rest.addExecute (addrOf a) (srvStateOf view s a)).effect.probe m with
+    | some p => ∃ it, ((UC.addServer z m a).run s now).1.queue = s.queue ++ [it] ∧ probeFieldsOf it.probe = p
+    | none => ((UC.addServer z m a).run s now).1.queue = s.queue := by
+  have h := (addExecute_abstracts view z m a s now hport hcanon).2.2
+  cases he : (Rest.addExecute (addrOf a) (srvStateOf view s a)).effect with
+  | none =>
+    rw [he] at h
+    simp only [Rest.Effect.probe]
+    rw [show ((UC.addServer z m a).run s now).1 = s from h]
+  | discover created ra qp w =>
+    rw [he] at h
+    simp only [Rest.Effect.probe]
+    obtain ⟨hra, _, hq, _⟩ := h
+    exact ⟨discoveryItem m a s now, hq, by rw [hra]; rfl⟩
+
+/-- both branches of `addExecute_probe` on concrete stores: a new address (probe queued: `W.A`'s game port, goal 1,
+0 retries, maximum 2) and a server already marked `port_retry` (no probe) -/
+example : (Rest.addExecute (addrOf W.A) (srvStateOf (fun _ => { addr := addrOf W.A }) {} W.A)).effect.probe 2 =
+    some ⟨addrOf W.A, W.A.port, 1, 0, 2⟩ := by decide
+example : (Rest.addExecute (addrOf W.A) (srvStateOf (fun _ => { addr := addrOf W.A })
+    ((UC.addServer [] 2 W.A).run W.stored 5).1 W.A)).effect.probe 2 = none := by decide
+
 end Swat4.RestBridge
